@@ -103,9 +103,16 @@ def hostile_keys():
 def hostile_tables(rnd):
     leaves = INTS + FLOATS + DECIMALS + DATETIMES + STRINGS + BYTESLIKE + \
         WRONG
-    for v in leaves:
+    names = ['', 'key', 'x-match', 'content_type', 'Header-Name', 'a' * 128,
+             '{}', '%s', ' padded ', '0', 'é' * 100]
+    for i, v in enumerate(leaves):
         yield {'k': v}
         yield [v]
+        # the same leaf among neighbours, under names of other shapes, beside
+        # None / empty values that a tidying encoder might drop
+        n1, n2 = names[i % len(names)], names[(i + 3) % len(names)]
+        yield {n1: v, n2 + 'x': None, 'list': [None, v, None, v],
+               'empty': {}, 'blank': ''}
     for k in hostile_keys():
         yield {k: 1}
         yield {'outer': {k: 'v'}}
